@@ -490,6 +490,17 @@ func fixedWorld(name string, s *world.Signers) (*WorldFile, error) {
 		b.delc(p1, "tag", "b", 140)  // p1 loses tag b late
 		b.dir("top", f1)
 		b.chunk("opaque bytes")
+		// two permanodes linked by TWO edges: the earlier one (camliPath:x) is re-pointed elsewhere, the later one
+		// (camliMember) still holds; and a pair whose only edge was re-pointed away
+		p18 := b.pn("18")
+		b.set(p18, "camliPath:x", p2, 150)
+		b.set(p18, "camliPath:x", p3, 151)
+		b.addc(p18, "camliMember", p2, 152)
+		b.set(p18, "title", "album", 153)
+		p19 := b.pn("19")
+		b.set(p19, "camliPath:x", p1, 160)
+		b.set(p19, "camliPath:x", p5, 161)
+		b.addc(p19, "tag", "c", 162)
 	case "wf":
 		// file / directory centred world
 		b.key(1)
@@ -696,6 +707,12 @@ func randWorld(name string, seed int64, s *world.Signers) (*WorldFile, error) {
 			case 8:
 				if q := pns[rng.Intn(len(pns))]; q < p {
 					b.set(p, "camliPath:x", q, d)
+					if rng.Intn(3) == 0 { // a second edge to the same permanode, and the first one re-pointed
+						b.addc(p, "camliMember", q, d+1)
+						if q2 := pns[rng.Intn(len(pns))]; q2 < p {
+							b.set(p, "camliPath:x", q2, d+2)
+						}
+					}
 				}
 			case 9:
 				if rng.Intn(2) == 0 {
